@@ -90,6 +90,7 @@ pub fn execute(plan: &Plan, choices: Option<Vec<u32>>, record: bool, props: &[St
     faults.insert("eager_clock_advance".to_string(), out.counters.eager_advances);
     faults.insert("clock_jump".to_string(), out.counters.clock_jumps);
     faults.insert("wall_clock_stepped_back".to_string(), out.counters.wall_steps_back);
+    faults.insert("wall_clock_alone_stepped_forward".to_string(), out.counters.wall_steps_fwd);
     faults.insert("stall_skips".to_string(), out.counters.stall_skips);
     faults.insert("worker_stalled_right_after_receiving".to_string(), out.counters.stalls_after_recv);
     faults.insert("task_stalled_in_virtual_time".to_string(), out.counters.vstalls);
@@ -512,6 +513,10 @@ pub struct ReplayFile {
     pub plan: Plan,
     pub choices: Vec<u32>,
     pub minimised: serde_json::Value,
+    /// "default-features": found by (and to be replayed with) the harness built against the
+    /// library's default feature set (`sync` only)
+    #[serde(default, skip_serializing_if = "Option::is_none")]
+    pub build: Option<String>,
 }
 
 fn same_violation(s: &RunSummary, prop: &str, rule: &str, fp: &str) -> Option<Violation> {
@@ -713,6 +718,7 @@ pub fn minimise(plan: &Plan, v: &Violation, props: &[String], budget: usize) -> 
             "candidates_tried": tries,
         }),
         plan: cur,
+        build: if cfg!(feature = "async_flavour") { None } else { Some("default-features".to_string()) },
     })
 }
 
